@@ -24,7 +24,9 @@ import traceback
 from typing import Any, Optional
 
 VERIF = os.path.dirname(os.path.dirname(os.path.abspath(__file__)))
-EVIDENCE_DIR = os.path.join(VERIF, 'evidence')
+# VERIF_EVIDENCE_DIR: only used by tools/seeded_confirm.py, so that runs against a patched scratch tree do not
+# overwrite the evidence of /repo
+EVIDENCE_DIR = os.environ.get('VERIF_EVIDENCE_DIR') or os.path.join(VERIF, 'evidence')
 REPLAY_DIR = os.path.join(EVIDENCE_DIR, 'replays')
 KNOWN_FILE = os.path.join(VERIF, 'known_findings.json')
 
